@@ -5,6 +5,7 @@
 set -u
 here="$(cd "$(dirname "${BASH_SOURCE[0]}")/.." && pwd)"
 patch="$1"; tier="$2"; shift 2
+[[ "$patch" != revert:* && "$patch" != /* ]] && patch="$PWD/$patch"
 scratch="$(mktemp -d /tmp/vmon-mut.XXXXXX)"
 trap 'rm -rf "$scratch"' EXIT
 rsync -a --exclude .git --exclude '__pycache__' /repo/ "$scratch/"
